@@ -370,6 +370,13 @@ def gen_program(rng, max_ops=10):
         prog["settings"].append(["scale", None])
     if rng.random() < 0.3 and n > 1:
         prog["deleted"].append([rng.randrange(n), 0])
+    if rng.random() < 0.15:
+        # the whole model far from the origin (plant / map coordinates): which corners are one vertex is a matter of the
+        # absolute merge tolerance, whatever the size of the coordinates
+        off = rng.choice([120000.0, -65536.0])
+        for e in prog["entities"]:
+            if e["kind"] == "op":
+                e["pts"] = [[p[0] + off, p[1], p[2]] for p in e["pts"]]
     return prog
 
 
@@ -1251,6 +1258,10 @@ def run_and_judge(prog, work):
         obs = run_program(prog, work)
     except Discard:
         return None, []
+    except GenError:
+        raise
+    except Exception as e:  # noqa: BLE001
+        return None, [("write-raises", "a valid program could not be written: %s: %s" % (type(e).__name__, str(e)[:200]))]
     return obs, oracle(prog, obs)
 
 
@@ -1313,6 +1324,14 @@ class C06(Prop):
             except Discard as e:
                 discarded += 1
                 res.count("discarded:" + str(e)[:40])
+                continue
+            except GenError:
+                raise
+            except Exception as e:  # noqa: BLE001
+                # a valid program that cannot be assembled / written: reported with the program as the replay
+                res.oracle_failures.append(failure_replay(prog, [("write-raises", "a valid program could not be written: %s: %s" % (
+                    type(e).__name__, str(e)[:200]))]))
+                res.count("write-raises")
                 continue
             cases.append((prog, obs))
         res.count("discarded", discarded)
@@ -1401,6 +1420,10 @@ class C06(Prop):
             obs = run_program(prog, ctx.work)
         except Discard as e:
             print("implementation: program rejected (%s)" % e)
+            return 0
+        except Exception as e:  # noqa: BLE001
+            print("implementation: raised %s: %s" % (type(e).__name__, e))
+            print("oracle FAIL [write-raises]: a valid program could not be written")
             return 0
         print("implementation: wrote %d tokens, %d blocks" % (len(lex(obs["file"])), obs["nblocks"]))
         bad = oracle(prog, obs)
